@@ -210,7 +210,7 @@ def const_str_tests(test, var):
 def single_def_expr(cfg, node, name):
     """if exactly one definition of ``name`` reaches node and it is a plain
     expression, return it"""
-    defs = cfg.reaching_defs(node, name)
+    defs = cfg.reaching_defs(node, name, split=False)
     if len(defs) == 1 and isinstance(defs[0][1], ast.AST):
         return defs[0][1]
     return None
@@ -225,7 +225,7 @@ def deref(cfg, node, e, depth=3):
     """follow single-definition local variables: the expression a Name stands
     for at node (one level of 'extract variable' tolerance)"""
     while depth > 0 and isinstance(e, ast.Name):
-        defs = cfg.reaching_defs(node, e.id)
+        defs = cfg.reaching_defs(node, e.id, split=False)
         if len(defs) == 1 and isinstance(defs[0][1], ast.AST):
             node, e = defs[0][0], defs[0][1]
             depth -= 1
@@ -415,3 +415,126 @@ def scope_vars(program, unit):
                 out.discard(name)
                 changed = True
     return out
+
+
+def flows_into(unit, exprs):
+    """names of locals whose value may flow (through local assignments, flow-insensitively,
+    including loop targets and augmented assignments) into one of the expressions"""
+    defs = {}
+    for n in unit.own_nodes():
+        if isinstance(n, ast.Assign):
+            for t in n.targets:
+                for x in ast.walk(t):
+                    if isinstance(x, ast.Name):
+                        defs.setdefault(x.id, []).append(n.value)
+        elif isinstance(n, ast.AugAssign) and isinstance(n.target, ast.Name):
+            defs.setdefault(n.target.id, []).append(n.value)
+        elif isinstance(n, (ast.For, ast.comprehension)):
+            for x in ast.walk(n.target):
+                if isinstance(x, ast.Name):
+                    defs.setdefault(x.id, []).append(n.iter)
+        elif isinstance(n, ast.NamedExpr):
+            defs.setdefault(n.target.id, []).append(n.value)
+    seen = set()
+    work = [x.id for e in exprs for x in ast.walk(e) if isinstance(x, ast.Name)]
+    while work:
+        nm = work.pop()
+        if nm in seen:
+            continue
+        seen.add(nm)
+        for v in defs.get(nm, ()):
+            work.extend(x.id for x in ast.walk(v) if isinstance(x, ast.Name))
+    return seen
+
+
+def search_loop_rejects(cfg, inner, outer=None):
+    """A search loop (``for alt in alts: try one; on success break``) must reject when no
+    alternative matched and must not reject after a match, whatever the spelling
+    (for-else, a boolean flag tested after the loop, early exits).  ``inner``/``outer`` are
+    loop header nodes (outer None: the function body).  Decided on flag-sensitive paths:
+      (A) no path from a break of the loop to a rejecting raise within the same outer iteration;
+      (B) no path from the start of the outer iteration to its end that avoids both the breaks
+          and the rejecting raises.
+    -> (ok, detail, raises)"""
+    nonexc = lambda lab: lab != 'exc'
+    raises = []
+    for n in cfg.nodes:
+        if n.kind == 'stmt' and isinstance(n.ast, ast.Raise) and n.ast.exc is not None and inner not in n.loop_stack:
+            if cfg.find_path(inner, {n}, avoid={outer} if outer is not None else (), labels=nonexc,
+                             start_labels=lambda lab: lab == 'false') is not None:
+                raises.append(n)
+    if not raises:
+        return False, 'no raise is reachable when the loop is exhausted', raises
+    wins = [n for n in cfg.nodes if n.kind == 'stmt' and inner in n.loop_stack
+            and (isinstance(n.ast, ast.Break) and n.loop_stack[-1] is inner or isinstance(n.ast, ast.Return))]
+    if not wins:
+        return False, 'the loop has no break', raises
+    for b in wins:
+        pth = cfg.find_path(b, set(raises), avoid={outer} if outer is not None else (), labels=nonexc)
+        if pth is not None:
+            return False, 'a match can still be rejected: %s' % fmt_witness(cfg, pth), raises
+    if outer is not None:
+        start, ends, sl = outer, {outer, cfg.exit}, (lambda lab: lab == 'true')
+    else:
+        start, ends, sl = cfg.entry, {cfg.exit}, None
+    pth = cfg.find_path(start, ends, avoid=set(raises) | set(wins), labels=nonexc, start_labels=sl)
+    if pth is not None:
+        return False, 'no match goes unrejected: %s' % fmt_witness(cfg, pth), raises
+    return True, '', raises
+
+
+def choice_leaves(e):
+    """leaves of a (nested) conditional expression: ``a if c else (b if d else e)`` -> [a, b, e];
+    any other expression is its own single leaf"""
+    if isinstance(e, ast.IfExp):
+        return choice_leaves(e.body) + choice_leaves(e.orelse)
+    return [e]
+
+
+_COMPLEMENT = {ast.In: ast.NotIn, ast.NotIn: ast.In, ast.Is: ast.IsNot, ast.IsNot: ast.Is,
+               ast.Eq: ast.NotEq, ast.NotEq: ast.Eq, ast.Lt: ast.GtE, ast.GtE: ast.Lt,
+               ast.Gt: ast.LtE, ast.LtE: ast.Gt}
+
+
+def polarity(test, template):
+    """the out-edge of a test node on which ``template`` (source text of a condition, may use
+    pattern metavariables) holds: 'true' when the test is the condition, 'false' when it is its
+    negation (``not c`` or the complementary comparison), None when it is neither"""
+    from .pattern import matches, _compile
+    if matches(test, template):
+        return 'true'
+    if isinstance(test, ast.UnaryOp) and isinstance(test.op, ast.Not):
+        inner = polarity(test.operand, template)
+        if inner:
+            return 'false' if inner == 'true' else 'true'
+    t = _compile(template)
+    if isinstance(t, ast.Expr):
+        t = t.value
+    if isinstance(t, ast.Compare) and len(t.ops) == 1 and isinstance(test, ast.Compare) and len(test.ops) == 1 \
+            and _COMPLEMENT.get(type(t.ops[0])) is type(test.ops[0]):
+        import copy
+        flipped = copy.deepcopy(test)
+        flipped.ops = [type(t.ops[0])()]
+        if matches(flipped, template):
+            return 'false'
+    return None
+
+
+def branch_of(ifstmt, node):
+    """'true' / 'false': the branch of the If statement that contains ``node``"""
+    for s in ifstmt.body:
+        if any(x is node for x in ast.walk(s)):
+            return 'true'
+    for s in ifstmt.orelse:
+        if any(x is node for x in ast.walk(s)):
+            return 'false'
+    return None
+
+
+def exclusive(cfg, t, edge):
+    """nodes reachable (without exception edges) from test node t only by leaving it on ``edge``"""
+    nonexc = lambda lab: lab != 'exc'
+    other = 'false' if edge == 'true' else 'true'
+    a = cfg.reachable(t, labels=nonexc, start_labels=lambda lab: lab == edge)
+    b = cfg.reachable(t, labels=nonexc, start_labels=lambda lab: lab == other)
+    return [n for n in cfg.nodes if n in a and n not in b]
